@@ -65,8 +65,13 @@ impl<'a> Ev<'a> {
                         Some(init) => {
                             let v = self.expr(&init.expr, "let");
                             if let Some((_, d)) = &init.diverge {
-                                // let-else: the else branch diverges
+                                // let-else: the else branch diverges; it runs exactly when the pattern does not match
+                                let mut vs = Vec::new();
+                                pat_variants(&l.pat, &mut vs);
+                                let c = json!({"k":"iflet","pat":tok(&l.pat),"scrut": if size(&v) > 800 { json!({"k":"big"}) } else { v.clone() },"variants":vs});
+                                self.guards.push(json!({"k":"if","c":c,"neg":true,"line":line_of(l),"let_else":true}));
                                 let _ = self.expr(d, "let_else");
+                                self.guards.pop();
                             }
                             v
                         }
